@@ -653,15 +653,19 @@ def desc_probe(payload):
             parts.append(f'{name}{ann}={d}')
         bus = payload.get('bus', {}).get(str(len(res)))
         inb = payload.get('inbus', {}).get(str(len(res)))       # [bus expression, channels, 'kr'|'ar'] or None
+        ocls = payload.get('outcls', {}).get(str(len(res)), 'Out')
         if inb:
-            src = ('def f(' + ', '.join(parts) + f'):\n    x = In.{inb[2]}({inb[0]}, {inb[1]})\n'
-                   f'    Out.{inb[2]}(' + (bus if bus else '0') + ', x)\n')
+            b_ = (bus if bus else '0')
+            call = {'Out': f'Out.{inb[2]}({b_}, x)', 'ReplaceOut': f'ReplaceOut.{inb[2]}({b_}, x)',
+                    'OffsetOut': f'OffsetOut.{inb[2]}({b_}, x)' if inb[2] == 'ar' else f'Out.{inb[2]}({b_}, x)',
+                    'XOut': f'XOut.{inb[2]}({b_}, 0.5, x)', 'LocalOut': f'LocalOut.{inb[2]}(x)'}[ocls]
+            src = ('def f(' + ', '.join(parts) + f'):\n    x = In.{inb[2]}({inb[0]}, {inb[1]})\n    {call}\n')
         else:
             src = 'def f(' + ', '.join(parts) + '):\n    Out.kr(' + (bus if bus else '0') + ', 0.5)\n'
         ns = {}
-        from sc3.synth.ugens.inout import Out, In
-        ns['Out'] = Out
-        ns['In'] = In
+        from sc3.synth.ugens import inout as _io
+        for _n in ('Out', 'In', 'ReplaceOut', 'OffsetOut', 'XOut', 'LocalOut'):
+            ns[_n] = getattr(_io, _n)
         try:
             exec(src, ns)
             sd = SynthDef('probe', ns['f'])
@@ -671,11 +675,13 @@ def desc_probe(payload):
             res.append({'pnames': d['pnames'], 'params': [fmt_frac(x) for x in d['params']],
                         'controls': [(u['cls'], u['rate'], u['sp'], len(u['outs'])) for u in d['ugens'] if 'Control' in u['cls']],
                         'desc_names': list(desc.control_names),
-                        'out_start': [str(o.starting_channel) if isinstance(o.starting_channel, str) else fmt_frac(o.starting_channel)
+                        'out_start': [str(o.starting_channel) if isinstance(o.starting_channel, str)
+                                      else fmt_frac(o.starting_channel) if isinstance(o.starting_channel, (int, float)) else 'unit'
                                       for o in desc.outputs],
                         'outs': [[o.rate, o.channels, o.type.__name__] for o in desc.outputs],
                         'has_gate': bool(desc.has_gate),
-                        'ins': [[i.rate, i.channels, str(i.starting_channel) if isinstance(i.starting_channel, str) else fmt_frac(i.starting_channel),
+                        'ins': [[i.rate, i.channels, str(i.starting_channel) if isinstance(i.starting_channel, str)
+                                 else fmt_frac(i.starting_channel) if isinstance(i.starting_channel, (int, float)) else 'unit',
                                  i.type.__name__] for i in desc.inputs],
                         'desc': {n: [c.index, c.rate, ([fmt_frac(v) for v in c.default_value] if isinstance(c.default_value, list) else fmt_frac(c.default_value))]
                                  for n, c in desc.control_dict.items()}})
@@ -1090,33 +1096,40 @@ def rate_constraint_probe(payload):
                 continue
             if not params or len(params) > 12:
                 continue
-            for k in range(len(params)):
+            for k, kind, wrap in [(k, kd, w) for k in range(len(params)) for kd in ('sig', 'const') for w in (False, True)]:
+                if kind == 'const' and (params[k].default is not params[k].empty or ctor != 'ar'):
+                    continue          # a number where an audio-rate unit requires a signal (no default)
+                if wrap and params[k].default is not params[k].empty:
+                    continue          # list-valued form only for arguments without default (array arguments)
                 st = {}
 
                 def f():
                     args = []
                     for j, p in enumerate(params):
+                        own = lambda: getattr(WhiteNoise, ctor)()
                         if j == k:
-                            args.append(getattr(WhiteNoise, other)())
+                            bad = getattr(WhiteNoise, other)() if kind == 'sig' else 0.25
+                            args.append([own(), bad] if wrap else bad)
                         elif p.default is not p.empty:
                             args.append(p.default)
                         else:
-                            args.append(getattr(WhiteNoise, ctor)())
+                            args.append(own())
                     n0 = len(_libsc3.main._current_synthdef._children)
                     x = fn(*args)
                     st['made'] = [c for c in _libsc3.main._current_synthdef._children[n0:] if type(c).__name__ == name]
                     y = x[0] if isinstance(x, list) and x else x
                     if isinstance(y, ugn.UGen) and y.rate in ('audio', 'control'):
                         (Out.ar if y.rate == 'audio' else Out.kr)(0, y)
+                tag = (k if kind == 'sig' else f'{k}c') if not wrap else (f'{k}l' if kind == 'sig' else f'{k}lc')
                 try:
                     sd = SynthDef('rc', f)
                     bytes(sd.as_bytes())
                     kids = list(sd._children)
                     if st.get('made') and any(c is q for c in st['made'] for q in kids):
-                        res.append([name, ctor, k, 'compiled'])
+                        res.append([name, ctor, tag, 'compiled'])
                 except Exception as ex:
                     if st.get('made') is not None:
-                        res.append([name, ctor, k, 'rejected', f'{type(ex).__name__}: {ex}'[:120]])
+                        res.append([name, ctor, tag, 'rejected', f'{type(ex).__name__}: {ex}'[:120]])
     return res
 
 
@@ -1178,6 +1191,37 @@ def mix_probe(payload):
             res.append([name, 'ok' if any(math.isinf(c) for c in d['consts']) else 'no infinite constant in the definition'])
         except Exception as ex:
             res.append([name, f'EXC {type(ex).__name__}: {ex}'[:120]])
+    # bool constants are numbers (True = 1.0)
+    def gb():
+        Out.ar(0, WhiteNoise.ar() * Line.kr(0, 0.5, 2, True))
+    try:
+        d = scgf.parse(bytes(SynthDef('bool', gb).as_bytes()))[0]
+        ln = [u for u in d['ugens'] if u['cls'] == 'Line'][0]
+        got = [fmt_frac(d['consts'][k]) if a < 0 else 'u' for a, k in ln['ins']]
+        res.append(['bool_const', 'ok' if got == ['0', '1/2', '2', '1'] else f'Line inputs {got}, expected 0, 1/2, 2, 1 (True)'])
+    except Exception as ex:
+        res.append(['bool_const', f'EXC {type(ex).__name__}: {ex}'[:120]])
+    # SoundIn: buses given as controls are separate one-channel inputs, consecutive numbers one multichannel input
+    from sc3.synth.ugens.inout import SoundIn
+    ns = {'Out': Out, 'SoundIn': SoundIn}
+    exec("def si_ctl(left=2, right=5):\n    Out.ar(0, SoundIn.ar([left, right]))\n"
+         "def si_cons():\n    Out.ar(0, SoundIn.ar([2, 3]))\n"
+         "def si_gap():\n    Out.ar(0, SoundIn.ar([2, 5]))\n", ns)
+    for name, want in (('si_ctl', [1, 1]), ('si_cons', [2]), ('si_gap', [1, 1])):
+        try:
+            d = scgf.parse(bytes(SynthDef(name, ns[name]).as_bytes()))[0]
+            ins = [len(u['outs']) for u in d['ugens'] if u['cls'] == 'In']
+            problem = None
+            if ins != want:
+                problem = f'input units with {ins} channels, expected {want}'
+            elif name == 'si_ctl':
+                # every control output is used
+                used = {(a, k) for u in d['ugens'] for a, k in u['ins'] if a >= 0 and d['ugens'][a]['cls'] == 'Control'}
+                if len(used) != 2:
+                    problem = f'only control outputs {sorted(used)} are wired (both bus parameters must be read)'
+            res.append(['soundin:' + name, problem or 'ok'])
+        except Exception as ex:
+            res.append(['soundin:' + name, f'EXC {type(ex).__name__}: {ex}'[:120]])
     return res
 
 
